@@ -5,8 +5,15 @@ import (
 
 	"p9verif/vconn"
 
+	"github.com/hugelgupf/p9/linux"
 	"github.com/hugelgupf/p9/p9"
 )
+
+// nullAttacher refuses every attach (for checks that never attach).
+type nullAttacher struct{}
+
+func (nullAttacher) Attach() (p9.File, error) { return nil, linux.ENOENT }
+
 
 // dialPipe connects a real p9.Client to srv over an in-memory duplex.
 func dialPipe(srv *p9.Server, opts ...p9.ClientOpt) (*p9.Client, func(), error) {
